@@ -1,12 +1,13 @@
 import StraxModel.Lemmas.LineageFuzzy
+import StraxModel.Lemmas.LineageJson
 /-
   C02 — stored data is reused only under an identical lineage (no stale reads).
 
   Model: `StraxModel/Model/Lineage.lean` (namespace `Strax.Lineage`); helper lemmas:
   `StraxModel/Lemmas/Lineage*.lean`.  `H : String → K` stands for SHA-1 + base32 truncation applied
   to the JSON text `canonString (canon x)`; it is a parameter, and the only thing assumed about it
-  is `HashInj H` (different canonical forms get different hashes), which follows from
-  injectivity of `H` and of the JSON printer (`hashInj_of_injective`).
+  is `Function.Injective H` (a hypothesis of the theorems that need it, not an axiom).  The JSON
+  printer itself is proved injective (`json_text_injective`).
 
   All theorems below are about `Rules.fixed`, the rules of the code as it is now; the
   `…_counterexample_…` theorems show by evaluation that each of the four earlier rules breaks the
@@ -16,6 +17,21 @@ namespace Strax.C02
 open Strax Strax.Lineage
 
 variable {K : Type} [DecidableEq K]
+set_option linter.unusedSectionVars false
+
+/-! ## the hash -/
+
+/-- The JSON printer is injective: the text fed to SHA-1 determines the canonical form. -/
+theorem json_text_injective : Function.Injective canonString := canonString_injective
+
+/-- so an injective hash of the text separates canonical forms -/
+theorem hashInj_of_injective {H : String → K} (hH : Function.Injective H) : HashInj H :=
+  fun _ _ h => canonString_injective (hH h)
+
+/-- two lineages get the same key iff `hashablize` makes the same of them -/
+theorem key_eq_iff {H : String → K} (hH : Function.Injective H) (L L' : Lineage) :
+    keyOf H L = keyOf H L' ↔ lineageCanon L = lineageCanon L' :=
+  ⟨fun h => canonString_injective (hH h), fun h => by unfold keyOf; rw [h]⟩
 
 /-! ## keys do not depend on insertion orders or hash seeds -/
 
@@ -54,7 +70,7 @@ ancestor-or-self contributes the same tracked part.  Hence a change of a tracked
 version or of the providing class of `a` changes the key of `a` and of all its descendants, and
 of nothing else (`tracked_change_hits_descendants`, `registration_only_hits_descendants`,
 `option_change_only_hits_descendants_of_takers`). -/
-theorem lineage_changes_iff {r r' : Registry} {c c' : Config} (hc : NodupKeys c) (hc' : NodupKeys c')
+theorem lineage_changes_iff {r r' : Registry} {c c' : Config}
     {n n' : Nat} {d : String} {L L' : Lineage}
     (h : lineage r c n d = .ok L) (h' : lineage r' c' n' d = .ok L') :
     lineageCanon L = lineageCanon L' ↔
@@ -99,25 +115,25 @@ theorem lineage_changes_iff {r r' : Registry} {c c' : Config} (hc : NodupKeys c)
     · rw [if_neg ha, if_neg (fun hb => ha ((hanc a).mpr hb))]
 
 /-- the same statement about keys -/
-theorem key_changes_iff {H : String → K} (hH : HashInj H) {r r' : Registry} {c c' : Config}
-    (hc : NodupKeys c) (hc' : NodupKeys c') {n n' : Nat} {d : String} {L L' : Lineage}
+theorem key_changes_iff {H : String → K} (hH : Function.Injective H) {r r' : Registry} {c c' : Config}
+    {n n' : Nat} {d : String} {L L' : Lineage}
     (h : lineage r c n d = .ok L) (h' : lineage r' c' n' d = .ok L') :
     keyOf H L ≠ keyOf H L' ↔
       ¬ ((∀ a, a ∈ ancestors r n d ↔ a ∈ ancestors r' n' d) ∧
          ∀ a ∈ ancestors r n d, trackedPart r c a = trackedPart r' c' a) := by
-  rw [← lineage_changes_iff hc hc' h h']
+  rw [← lineage_changes_iff h h']
   constructor
   · intro hk he; exact hk (by unfold keyOf; rw [he])
-  · intro hk he; exact hk (hH _ _ he)
+  · intro hk he; exact hk (hashInj_of_injective hH _ _ he)
 
 /-- A change in the tracked part of `a` (tracked option value, version, class name) changes the
 key of every data type `d` that has `a` among its ancestors-or-self. -/
-theorem tracked_change_hits_descendants {H : String → K} (hH : HashInj H) {r r' : Registry} {c c' : Config}
-    (hc : NodupKeys c) (hc' : NodupKeys c') {n n' : Nat} {d a : String} {L L' : Lineage}
+theorem tracked_change_hits_descendants {H : String → K} (hH : Function.Injective H) {r r' : Registry} {c c' : Config}
+    {n n' : Nat} {d a : String} {L L' : Lineage}
     (h : lineage r c n d = .ok L) (h' : lineage r' c' n' d = .ok L')
     (ha : a ∈ ancestors r n d) (hdiff : trackedPart r c a ≠ trackedPart r' c' a) :
     keyOf H L ≠ keyOf H L' :=
-  (key_changes_iff hH hc hc' h h').mpr fun hh => hdiff (hh.2 a ha)
+  (key_changes_iff hH h h').mpr fun hh => hdiff (hh.2 a ha)
 
 /-- (Re-)registering a class for data type `t` leaves the lineage — hence the key — of every data
 type that does not descend from `t` exactly as it was. -/
@@ -139,7 +155,7 @@ theorem option_change_only_hits_descendants_of_takers (H : String → K) {r : Re
     (hun : ∀ a ∈ ancestors r n d, ∀ cls, r.lookup a = some cls → ∀ opt ∈ cls.options, opt.name = o → opt.track = false) :
     keyOf H L = keyOf H L' := by
   have : lineageCanon L = lineageCanon L' := by
-    rw [lineage_changes_iff hc hc' h h']
+    rw [lineage_changes_iff h h']
     refine ⟨fun a => Iff.rfl, fun a ha => ?_⟩
     exact trackedPart_congr_off hc hc' hcc (ownEntryOf_isSome_of_mem h ha) (ownEntryOf_isSome_of_mem h' ha)
       (fun cls hcls => hun a ha cls hcls)
@@ -156,17 +172,47 @@ theorem untracked_changes_no_key (H : String → K) {r : Registry} {c : Config} 
 
 /-! ## fuzzy matching -/
 
+/-- a lineage as Python has it: a dict of entries whose configs are dicts (decidable) -/
+def LineageOK (L : Lineage) : Prop := NodupKeys L ∧ ∀ ke ∈ L, NodupKeys ke.2.config
+
+instance (L : Lineage) : Decidable (LineageOK L) := by unfold LineageOK; infer_instance
+
+theorem LineageOK.wf {L : Lineage} (h : LineageOK L) : LineageWF L :=
+  ⟨h.1, fun t e hl => h.2 (t, e) (lookup_mem hl)⟩
+
+/-- every lineage the model builds from a dict-shaped config is of that form -/
+theorem lineage_ok {r : Registry} {c : Config} (hc : NodupKeys c) {n : Nat} {d : String} {L : Lineage}
+    (h : lineage r c n d = .ok L) : LineageOK L := by
+  refine ⟨lineage_nodupKeys h, ?_⟩
+  intro ⟨a, e⟩ hm
+  have hl := mem_lookup (lineage_nodupKeys h) hm
+  rw [lineage_lookup h a] at hl
+  split at hl
+  · unfold ownEntryOf at hl
+    split at hl
+    · simp at hl
+    · rename_i cls _
+      split at hl
+      · rename_i pc hp
+        simp at hl; subst hl
+        exact entryConfig_nodup cls (pluginConfig_nodup hc hp)
+      · simp at hl
+  · simp at hl
+
+example : LineageOK [("aa", ⟨"A", "1", [("x", .int 1), ("y", .seq true [.int 1, .int 2])]⟩),
+    ("bb", ⟨"B", "2", []⟩)] := by decide
+
 /-- `_matches` in fuzzy mode accepts a stored lineage exactly when, outside the data types named in
 `fuzzy_for`, both lineages have the same data types with the same class and version, and outside
 the options named in `fuzzy_for_options` the same option values (as `hashablize` sees them). -/
-theorem fuzzy_match_iff {stored want : Lineage} {ff ffo : List String} (hs : LineageWF stored) (hw : LineageWF want) :
+theorem fuzzy_match_iff {stored want : Lineage} {ff ffo : List String} (hs : LineageOK stored) (hw : LineageOK want) :
     fuzzyMatches true stored want ff ffo = true ↔
       ∀ t, t ∉ ff →
         match stored.lookup t, want.lookup t with
         | none, none => True
         | some e, some e' => e.cls = e'.cls ∧ e.version = e'.version ∧ ∀ o, o ∉ ffo → CfgEqAt e.config e'.config o
         | _, _ => False :=
-  fuzzyMatches_iff hs hw
+  fuzzyMatches_iff hs.wf hw.wf
 
 /-- Before the fix the filtered lineages were compared with Python `==`: a stored lineage (read
 back from JSON, tuples have become lists) never matched when any remaining option was a tuple. -/
@@ -183,22 +229,19 @@ theorem fuzzy_never_saves (rules : Rules) (H : String → K) (ctx : Ctx K) (s : 
 
 /-! ## no stale read -/
 
-/-- injectivity of the hash and of the JSON printer give the assumption the theorems use -/
-theorem hashInj_of_injective {H : String → K} (hH : Function.Injective H)
-    (hJ : Function.Injective canonString) : HashInj H := fun _ _ h => hJ (hH h)
-
 /-- **No stale read.**  After any history of set_config / register / new_context / fuzzy settings /
 lineage / is_stored / make / get_array issued to two contexts that share one directory, a context
 whose fuzzy matching is off returns from `get_array d` rows of exactly the provenance a brand-new
 context with the same registry and config computes on an empty directory — whenever that
 brand-new context can compute `d` at all. -/
-theorem no_stale_read {H : String → K} (hH : HashInj H) (ops : List Op) (who : Bool) (d : String) :
+theorem no_stale_read {H : String → K} (hH : Function.Injective H) (ops : List Op) (who : Bool) (d : String) :
     let s := (run Rules.fixed H State.init ops).2
     (s.ctx who).fuzzy = false →
     ∀ p fz, (step Rules.fixed H (freshState (s.ctx who).registry (s.ctx who).config) ⟨false, .get d⟩).1 = .data p fz →
       ∃ p', (step Rules.fixed H s ⟨who, .get d⟩).1 = .data p' false ∧ keyOf H p' = keyOf H p ∧
         lineageCanon p' = lineageCanon p := by
   intro s hfz p fz hfresh
+  have hH := hashInj_of_injective hH
   have hinv : Inv H s := run_inv hH (inv_init H) ops
   have hctx : CtxInv H (s.ctx who) := by
     cases who
@@ -217,6 +260,9 @@ theorem no_stale_read {H : String → K} (hH : HashInj H) (ops : List Op) (who :
   rw [this]; exact hp'
 
 /-! ### non-vacuity: a concrete history inside the hypotheses -/
+
+-- the driver's instance of the abstract hash: the identity on the JSON text
+example : Function.Injective (fun s : String => s) := fun _ _ h => h
 
 def clsP (default : Int) : PluginClass :=
   ⟨"P", "1", "aa", [], [⟨"x", some (.int default), true, none⟩], false, [], "blosc", 80⟩
